@@ -227,8 +227,12 @@ func doWorker(c *vfw.Check, tier string, seed uint64, k, n, secs, maxRuns int, o
 					return false
 				}
 			}
+			var trace []string
+			if fr.W != nil {
+				trace = fr.W.Trace
+			}
 			rf := &vfw.ReplayFile{Property: c.ID, Tier: tier, Seed: seed, RunIndex: idx, Violation: fr.Viol, Tape: fr.Tape.Rec,
-				OriginalLen: len(tape.Rec), MinimiseRuns: mruns, Trace: fr.W.Trace, Faults: fr.Faults, RepoTree: repoTree()}
+				OriginalLen: len(tape.Rec), MinimiseRuns: mruns, Trace: trace, Faults: fr.Faults, RepoTree: repoTree()}
 			if f := findings.Match(fr.Viol); f != nil {
 				rf.Known = f.Signature
 				res.KnownSeen[f.Signature]++
@@ -546,6 +550,7 @@ func doReplay(c *vfw.Check, path string, scratch string) int {
 		fatal2("replay file is for %s", rf.Property)
 	}
 	tape := seamrt.StrictTape(rf.Tape)
+	vfw.ReplayMode = true
 	r := vfw.Execute(c, rf.Tier, rf.Seed, rf.RunIndex, tape, true, scratch)
 	if r.W != nil {
 		for _, l := range r.W.Trace {
